@@ -68,9 +68,6 @@ class Run:
         gen_tables.write(REPO, os.path.join(LEAN_DIR, "Gen", "Tables.lean"))
         import gen_effects
         gen_effects.write(REPO, os.path.join(LEAN_DIR, "Gen", "Effects.lean"))
-        if os.path.exists(os.path.join(HERE, "gen_effects.py")) and self.pid in ("C17", "C18"):
-            import gen_effects
-            gen_effects.write(REPO, os.path.join(LEAN_DIR, "Gen", "Effects.lean"))
         rc, out = sh(["lake", "build", "driver", "Model"], cwd=LEAN_DIR)
         if rc != 0:
             raise MachineryError("model/driver does not build:\n" + out[-3000:])
@@ -115,6 +112,9 @@ class Run:
         self.cov["checker_cmd"] = "cd lean && lake build %s && lake env lean <#print axioms of the listed theorems>" % " ".join(targets)
         self.proof_problems = problems
         self.proof_ok = not problems
+        if self.tier == "thorough" and rc == 0:
+            # independent re-check of the compiled proofs
+            self.leanchecker(sorted(set(targets)))
         return self.proof_ok
 
     def leanchecker(self, mods):
